@@ -238,6 +238,7 @@ func (co *ClipperOffset) SetDeltaCallback(deltaCallback *DeltaCallbackFunc) {
 
 func (co *ClipperOffset) executeInternal(delta float64) {
 	if len(co.groupList) == 0 {
+		*co.solution = (*co.solution)[:0]
 		return
 	}
 
